@@ -24,10 +24,11 @@ CHECKS = {
         level="model_checking",
         engine="S+H",
         technique="explicit-state BFS over event histories of the real breaker vs. a reference automaton + exhaustive preemption-bounded schedule exploration of concurrent Execute calls",
-        text="Every history of {success, failure, panic, three clock steps} up to the stated depth is replayed on the real CircuitBreaker (library level, 27 configurations) and through the real LoadBalancer.ServeHTTP with scripted backends (system level, all five strategies), and each step's admission, rejection status, backend contact and state is compared with a reference automaton of the property; all interleavings of 2-3 concurrent Execute calls at the open->half-open boundary are enumerated up to the preemption bound and the number of concurrently admitted trials is checked against max_requests.",
+        text="Every history of {success, failure, panic, three clock steps} up to the stated depth is replayed on the real CircuitBreaker (library level, 27 configurations) and through the real LoadBalancer.ServeHTTP with scripted backends (system level, all five strategies), and each step's admission, rejection status, backend contact and state is compared with a reference automaton of the property; all interleavings of 2-3 concurrent Execute calls at the open->half-open boundary are enumerated up to the preemption bound and the number of concurrently admitted trials is checked against max_requests. The concurrent scenarios are explored a second time in a -race build, where the happens-before detector judges every explored schedule (scheduler hand-offs hidden from it).",
         note="Virtual clock moves in steps that never land exactly on a deadline; instants older than the largest configured duration are merged in the state fingerprint (argument in the harness); backends are RoundTripper stubs under the real httputil.ReverseProxy; interleavings are explored at synchronisation operations only (sound if the code between them is race-free, which C12 checks).",
         jobs=[
             dict(name="c07s", part="S", pkg=CB, run="TestVerifC07S", mode="instr", shards=dict(quick=4, thorough=16)),
+            dict(name="c07race", part="S-Race", pkg=CB, run="TestVerifC07S", mode="instr", race=True, shards=dict(quick=8, thorough=16)),
             dict(name="c07sys", part="Sys", pkg=LB, run="TestVerifC07Sys", mode="instr", shards=dict(quick=13, thorough=16)),
             dict(name="c07h", part="H", pkg=CB, run="TestVerifC07H", mode="instr", shards=dict(quick=9, thorough=14)),
         ],
@@ -37,10 +38,11 @@ CHECKS = {
         level="model_checking",
         engine="S+H",
         technique="explicit-state BFS over breaker histories through the real config->Validate->NewLoadBalancer->ServeHTTP pipeline with a recovery probe from every reachable state + exhaustive preemption-bounded schedule exploration of concurrent state changes (deadlock verdict)",
-        text="For every breaker configuration of the menu that Validate accepts, every state reachable within the depth by {ok, 500, refused, aborted, clock steps} is a start state of a bounded recovery script (wait out the timeout, then only successful requests) that must end closed and admitting; all interleavings up to the preemption bound of 2-3 concurrent requests that trigger state changes (including panicking ones), with the balancer's real OnStateChange callback, must terminate (no enabled thread while one is blocked = deadlock).",
+        text="For every breaker configuration of the menu that Validate accepts, every state reachable within the depth by {ok, 500, refused, aborted, clock steps} is a start state of a bounded recovery script (wait out the timeout, then only successful requests) that must end closed and admitting; all interleavings up to the preemption bound of 2-3 concurrent requests that trigger state changes (including panicking ones), with the balancer's real OnStateChange callback, must terminate (no enabled thread while one is blocked = deadlock). The concurrent scenarios are explored a second time in a -race build, where the happens-before detector judges every explored schedule (scheduler hand-offs hidden from it).",
         note="Same trusted base as C07; the recovery bound is success_threshold + max_requests + 2 requests after the timeout.",
         jobs=[
             dict(name="c08s", part="S", pkg=LB, run="TestVerifC08S", mode="instr", shards=dict(quick=15, thorough=16)),
+            dict(name="c08race", part="S-Race", pkg=LB, run="TestVerifC08S", mode="instr", race=True, shards=dict(quick=15, thorough=16)),
             dict(name="c08h", part="H", pkg=LB, run="TestVerifC08H", mode="instr", shards=dict(quick=16, thorough=16)),
         ],
         assumptions=[],
@@ -49,10 +51,11 @@ CHECKS = {
         level="model_checking",
         engine="S+H",
         technique="exhaustive enumeration of all arrival histories (virtual time) of the real token-bucket limiter checked against the stated bounds + exhaustive preemption-bounded schedule exploration of concurrent arrivals and cleanup",
-        text="All arrival histories (1-4 clients, three clock steps, max_tokens 1..5) up to the stated length are run on the real Allow under a virtual clock and judged by the statement's own bounds (every sliding window, new-client burst, idle refill, isolation as a differential between a history and its per-client projection); the same through ServeHTTP over seven spellings of the client address (429 <=> not forwarded); all interleavings up to the preemption bound of 2-3 goroutines hitting one bucket, bucket creation races and the hourly cleanup must admit exactly what a sequential order admits.",
+        text="All arrival histories (1-4 clients, three clock steps, max_tokens 1..5) up to the stated length are run on the real Allow under a virtual clock and judged by the statement's own bounds (every sliding window, new-client burst, idle refill, isolation as a differential between a history and its per-client projection); the same through ServeHTTP over seven spellings of the client address (429 <=> not forwarded); all interleavings up to the preemption bound of 2-3 goroutines hitting one bucket, bucket creation races and the hourly cleanup must admit exactly what a sequential order admits. The concurrent scenarios are explored a second time in a -race build, where the happens-before detector judges every explored schedule (scheduler hand-offs hidden from it).",
         note="Oracles are the bounds of the statement, not the implementation's algorithm; clock steps are 0.4/1/3.1 refill periods; sync.Map is modelled as an insertion-ordered map with a scheduling point per operation.",
         jobs=[
             dict(name="c09s", part="S", pkg=RL, run="TestVerifC09S", mode="instr", shards=dict(quick=6, thorough=16)),
+            dict(name="c09race", part="S-Race", pkg=RL, run="TestVerifC09S", mode="instr", race=True, shards=dict(quick=6, thorough=16)),
             dict(name="c09sys", part="Sys", pkg=LB, run="TestVerifC09Sys", mode="instr", shards=dict(quick=8, thorough=8)),
             dict(name="c09h", part="H", pkg=RL, run="TestVerifC09H", mode="instr", shards=dict(quick=6, thorough=9)),
         ],
@@ -73,10 +76,11 @@ CHECKS = {
         level="model_checking",
         engine="S+H",
         technique="explicit-state BFS over health histories (responses, probe ticks, clock steps) of the real LoadBalancer with a may/must monitor and a recovery sweep from every reachable state + exhaustive preemption-bounded schedule exploration of expiry/ejection/probe races",
-        text="For every strategy x passive threshold 0..3 x active on/off (2 backends; thorough also 3) every history up to the depth over {request from two clients, flip a backend between ok and 500/refusing, probe tick through the real ticker loop and checkBackendsHealth, clock +4s/+11s} is replayed; a may/must monitor fed only by what the scripted backends answered checks ejection-permitted, ejection-required, no traffic inside a window and that ListBackends and the metrics mirror never say healthy inside a window; from every reachable state a recovery sweep (windows elapsed, optional tick, 48 client addresses or overlapping requests for least_connections) must reach every backend. Three two-thread races (lazy expiry vs fresh ejection, in-flight probe vs ejection, two expiries) are explored under all interleavings up to the preemption bound with a final-state oracle.",
+        text="For every strategy x passive threshold 0..3 x active on/off (2 backends; thorough also 3) every history up to the depth over {request from two clients, flip a backend between ok and 500/refusing, probe tick through the real ticker loop and checkBackendsHealth, clock +4s/+11s} is replayed; a may/must monitor fed only by what the scripted backends answered checks ejection-permitted, ejection-required, no traffic inside a window and that ListBackends and the metrics mirror never say healthy inside a window; from every reachable state a recovery sweep (windows elapsed, optional tick, 48 client addresses or overlapping requests for least_connections) must reach every backend. Three two-thread races (lazy expiry vs fresh ejection, in-flight probe vs ejection, two expiries) are explored under all interleavings up to the preemption bound with a final-state oracle. The concurrent scenarios are explored a second time in a -race build, where the happens-before detector judges every explored schedule (scheduler hand-offs hidden from it).",
         note="The monitor counts failed responses cumulatively since the last passive ejection (weakest reading of the statement); active probes go through http.Client on a stubbed http.DefaultTransport; the health-check goroutine, its ticker and select run under the controlled scheduler via the rewritten go/select statements.",
         jobs=[
             dict(name="c04s", part="S", pkg=LB, run="TestVerifC04S", mode="instr", shards=dict(quick=6, thorough=15)),
+            dict(name="c04race", part="S-Race", pkg=LB, run="TestVerifC04S", mode="instr", race=True, shards=dict(quick=6, thorough=15)),
             dict(name="c04h", part="H", pkg=LB, run="TestVerifC04H", mode="instr", shards=dict(quick=16, thorough=16), timeout=dict(quick=600, thorough=3000)),
         ],
         assumptions=[],
@@ -85,11 +89,12 @@ CHECKS = {
         level="model_checking",
         engine="S+H",
         technique="exhaustive enumeration of pools, weight vectors, ejected subsets, offsets and in-flight vectors through the real ServeHTTP + explicit-state BFS over membership/health histories with a deviation probe + exhaustive preemption-bounded schedule exploration of concurrent pickers",
-        text="round_robin: pools of 1..6 (thorough 1..8), every ejected subset and every warm-up offset: every window of |eligible| consecutive requests is a permutation of the eligible backends; 2-4 concurrent pickers through findHealthyBackend under all interleavings up to the preemption bound give exactly k per backend. weighted_round_robin: every weight vector in {0..6}^n (n<=3, thorough n<=4) from a fresh pool gives exactly w_i in every window of sum(w) within three cycles (weights below 1 as 1); BFS over {pick, eject, recover, remove, add} histories with a probe of 3*W_eligible requests checks the stated deviation bound at every prefix. least_connections: every in-flight vector in {0,1,2}^n built from really overlapping (held) requests x every ejected subset: the next request goes to a minimal eligible gauge and gauges equal in-flight counts.",
+        text="round_robin: pools of 1..6 (thorough 1..8), every ejected subset and every warm-up offset: every window of |eligible| consecutive requests is a permutation of the eligible backends; 2-4 concurrent pickers through findHealthyBackend under all interleavings up to the preemption bound give exactly k per backend. weighted_round_robin: every weight vector in {0..6}^n (n<=3, thorough n<=4) from a fresh pool gives exactly w_i in every window of sum(w) within three cycles (weights below 1 as 1); BFS over {pick, eject, recover, remove, add} histories with a probe of 3*W_eligible requests checks the stated deviation bound at every prefix. least_connections: every in-flight vector in {0,1,2}^n built from really overlapping (held) requests x every ejected subset: the next request goes to a minimal eligible gauge and gauges equal in-flight counts. The concurrent scenarios are explored a second time in a -race build, where the happens-before detector judges every explored schedule (scheduler hand-offs hidden from it).",
         note="All picks go through ServeHTTP (or findHealthyBackend for the concurrent counting claim) with stub transports; 'recover' is modelled by an ejection whose window is already over; larger weight vectors than the enumerated ones are not covered.",
         jobs=[
             dict(name="c05h", part="H", pkg=LB, run="TestVerifC05", mode="instr", shards=dict(quick=16, thorough=16), timeout=dict(quick=600, thorough=3000)),
             dict(name="c05s", part="S", pkg=LB, run="TestVerifC05S", mode="instr", shards=dict(quick=3, thorough=7), timeout=dict(quick=600, thorough=3000)),
+            dict(name="c05race", part="S-Race", pkg=LB, run="TestVerifC05S", mode="instr", race=True, shards=dict(quick=3, thorough=7), timeout=dict(quick=600, thorough=3000)),
         ],
         assumptions=[],
     ),
@@ -111,11 +116,12 @@ CHECKS = {
         level="model_checking",
         engine="S+H",
         technique="explicit-state BFS over admin-operation histories through the real admin handlers against a reference model + exhaustive preemption-bounded schedule exploration of concurrent admin actors and traffic with brute-force linearizability checking",
-        text="Every history up to the depth over 14 admin operations and traffic events (add with repeated names / weight 0 / unparsable address, remove incl. absent names, set_strategy incl. unknown, list, request, eject) is sent through the real adminapi handlers and the real ServeHTTP for five starting strategies and compared step by step with a reference model (status class, listing equals the model after every operation, failed operations change nothing, a switch preserves names/weights/health, requests are served by a listed eligible backend whenever one exists). 2-4 concurrent admin actors plus a traffic actor are explored under all interleavings up to the preemption bound; each complete call/return history must be linearizable with respect to the model (brute force over the <=8 calls) and every request must be served.",
+        text="Every history up to the depth over 14 admin operations and traffic events (add with repeated names / weight 0 / unparsable address, remove incl. absent names, set_strategy incl. unknown, list, request, eject) is sent through the real adminapi handlers and the real ServeHTTP for five starting strategies and compared step by step with a reference model (status class, listing equals the model after every operation, failed operations change nothing, a switch preserves names/weights/health, requests are served by a listed eligible backend whenever one exists). 2-4 concurrent admin actors plus a traffic actor are explored under all interleavings up to the preemption bound; each complete call/return history must be linearizable with respect to the model (brute force over the <=8 calls) and every request must be served. The concurrent scenarios are explored a second time in a -race build, where the happens-before detector judges every explored schedule (scheduler hand-offs hidden from it).",
         note="The listing endpoint does not expose the strategy, so in concurrent histories only the entries are one atomic observation and the strategy is compared at quiescence; new backends get their scripted transport atomically with the add (scheduler hook).",
         jobs=[
             dict(name="c11h", part="H", pkg=LB, run="TestVerifC11H", mode="instr", shards=dict(quick=5, thorough=5), timeout=dict(quick=600, thorough=3000)),
             dict(name="c11s", part="S", pkg=LB, run="TestVerifC11S", mode="instr", shards=dict(quick=6, thorough=9), timeout=dict(quick=600, thorough=3000)),
+            dict(name="c11race", part="S-Race", pkg=LB, run="TestVerifC11S", mode="instr", race=True, shards=dict(quick=6, thorough=9), timeout=dict(quick=600, thorough=3000)),
         ],
         assumptions=[],
     ),
@@ -123,12 +129,13 @@ CHECKS = {
         level="model_checking",
         engine="S+H+W",
         technique="explicit-state BFS over request-outcome histories with the published counters audited after every step + exhaustive preemption-bounded schedule exploration of overlapping requests audited at quiescence",
-        text="Every history up to the depth over {ok, 404, 500, refused, aborted-mid-body requests, eject-all, clock steps} with breaker and limiter on/off under the five strategies is replayed and after every step the numbers published by the real /v1/metrics and /v1/backends handlers are audited against the harness' tallies (requests issued, exactly one outcome per request, per-backend totals equal requests actually sent by the stubs, both gauges equal in-flight = 0). 2-3 overlapping requests (one aborting, one failing) on a shared backend are explored under all interleavings up to the preemption bound and audited at quiescence.",
+        text="Every history up to the depth over {ok, 404, 500, refused, aborted-mid-body requests, eject-all, clock steps} with breaker and limiter on/off under the five strategies is replayed and after every step the numbers published by the real /v1/metrics and /v1/backends handlers are audited against the harness' tallies (requests issued, exactly one outcome per request, per-backend totals equal requests actually sent by the stubs, both gauges equal in-flight = 0). 2-3 overlapping requests (one aborting, one failing) on a shared backend are explored under all interleavings up to the preemption bound and audited at quiescence. The concurrent scenarios are explored a second time in a -race build, where the happens-before detector judges every explored schedule (scheduler hand-offs hidden from it).",
         note="Rate-limited, breaker-rejected and no-healthy-backend outcomes arise from the history (bucket of 3, failure_threshold 3, eject-all) rather than being injected; an abort is the real ErrAbortHandler path of httputil.ReverseProxy (ServerContextKey present). Wire part: sequences of real outcomes (ok, 500, refused, reset mid-body = real ErrAbortHandler behind net/http, real client disconnect, rate-limited, breaker-rejected, no-healthy-backend) with 1-8 concurrent clients against fresh instances over real connections, audited through the real admin endpoints at quiescence (at wire level a refused connection cannot be counted by the backend, so per-backend totals are bounded from both sides instead of compared for equality).",
         jobs=[
             dict(name="c13w", part="W", pkg=MAIN, run="TestVerifC13W", mode="plain", gomaxprocs=4, shards=dict(quick=14, thorough=16), timeout=dict(quick=600, thorough=3000)),
             dict(name="c13h", part="H", pkg=LB, run="TestVerifC13H", mode="instr", shards=dict(quick=8, thorough=16), timeout=dict(quick=600, thorough=3000)),
             dict(name="c13s", part="S", pkg=LB, run="TestVerifC13S", mode="instr", shards=dict(quick=4, thorough=8), timeout=dict(quick=600, thorough=3000)),
+            dict(name="c13race", part="S-Race", pkg=LB, run="TestVerifC13S", mode="instr", race=True, shards=dict(quick=4, thorough=8), timeout=dict(quick=600, thorough=3000)),
         ],
         assumptions=[],
     ),
@@ -160,12 +167,13 @@ CHECKS = {
         level="model_checking",
         engine="S+H+W",
         technique="explicit-state BFS over pool-operation histories with tracked connections and invariants on every state + exhaustive preemption-bounded schedule exploration of concurrent pool actors + exhaustive enumeration of message scripts through upgrade tunnels over real connections",
-        text="Tunnel: an Upgrade session is opened through the real handler chain and reverse proxy for every plugin chain of length <= 2 (thorough <= 3) over the six built-ins; after the 101 both ends follow every lock-step byte script of length <= 1-2 (thorough <= 3) over {client sends k, server sends k : k in 0, 1, 125, 126, 65536, 100000} ended by either side: each end must receive exactly the other's bytes in order and see EOF after the peer closed. Pool: for 1-2 backends and max_idle 0..3 every history up to the depth over {put a new connection, get, put back, close, clock +4s/+11s against a 10s idle timeout, cleanup, shutdown} on tracked fake connections is replayed on the real WebSocketPool with invariants on every state (a connection has at most one holder, Get returns nothing the pool closed or idle beyond the timeout, idle <= max_idle and equals the open connections owned, refused Put and Shutdown close); 2-3 concurrent pool actors are explored under all interleavings up to the preemption bound incl. 'accepted connections are closed or retrievable after the final Shutdown'.",
+        text="Tunnel: an Upgrade session is opened through the real handler chain and reverse proxy for every plugin chain of length <= 2 (thorough <= 3) over the six built-ins; after the 101 both ends follow every lock-step byte script of length <= 1-2 (thorough <= 3) over {client sends k, server sends k : k in 0, 1, 125, 126, 65536, 100000} ended by either side: each end must receive exactly the other's bytes in order and see EOF after the peer closed. Pool: for 1-2 backends and max_idle 0..3 every history up to the depth over {put a new connection, get, put back, close, clock +4s/+11s against a 10s idle timeout, cleanup, shutdown} on tracked fake connections is replayed on the real WebSocketPool with invariants on every state (a connection has at most one holder, Get returns nothing the pool closed or idle beyond the timeout, idle <= max_idle and equals the open connections owned, refused Put and Shutdown close); 2-3 concurrent pool actors are explored under all interleavings up to the preemption bound incl. 'accepted connections are closed or retrievable after the final Shutdown'. The concurrent scenarios are explored a second time in a -race build, where the happens-before detector judges every explored schedule (scheduler hand-offs hidden from it).",
         note="After the 101 the tunnel is checked on raw bytes, which is stronger than WebSocket frames; the pool is exercised through its own API (nothing in Helios calls Get/Put on the proxy path).",
         jobs=[
             dict(name="c20tunnel", part="Tunnel", pkg=MAIN, run="TestVerifC20Tunnel", mode="plain", gomaxprocs=4, shards=dict(quick=14, thorough=16), timeout=dict(quick=600, thorough=3000)),
             dict(name="c20poolh", part="PoolH", pkg=LB, run="TestVerifC20PoolH", mode="instr", shards=dict(quick=8, thorough=8), timeout=dict(quick=600, thorough=3000)),
             dict(name="c20pools", part="PoolS", pkg=LB, run="TestVerifC20PoolS", mode="instr", shards=dict(quick=12, thorough=16), timeout=dict(quick=600, thorough=3000)),
+            dict(name="c20poolrace", part="PoolS-Race", pkg=LB, run="TestVerifC20PoolS", mode="instr", race=True, shards=dict(quick=12, thorough=16), timeout=dict(quick=600, thorough=3000)),
         ],
         assumptions=[],
     ),
